@@ -134,6 +134,11 @@ type Step struct {
 
 	// quiesce
 	Rounds int `json:"rounds,omitempty"`
+
+	// engine S: one store batch (JSON of []*t_aio.Transaction), observe the
+	// database through a second connection before statement ObserveAt
+	Txs       json.RawMessage `json:"txs,omitempty"`
+	ObserveAt *int            `json:"observe_at,omitempty"`
 }
 
 // Plan is the replay file.
